@@ -48,7 +48,7 @@ def fails_at_end(lines, prop, cls):
         return False
     # the failure must be reported by one of the steps produced by the last scenario line
     last = lines[-1].split()[0]
-    n = 3 if last == "block" else 1
+    n = 3 if last == "block" else 2 if last == "closeblock" else 1
     pat = re.compile(r"(mon|probe) %s fail class=%s( |$)" % (prop, re.escape(cls)))
     return any(pat.search(x) for s in steps[-n:] for x in s[1])
 
@@ -98,7 +98,7 @@ def cut(scn, rel):
         k = l.split()[0]
         if k == "config":
             continue
-        n += 3 if k == "block" else 1
+        n += 3 if k == "block" else 2 if k == "closeblock" else 1
         if n > rel:
             break
     return out
